@@ -175,7 +175,16 @@ def c14_1(ctx):
             pat = v.pattern if isinstance(v, Regex) else (v if isinstance(v, str) and ('PATTERN' in name) else None)
             if pat is None:
                 continue
-            seen_roots[f'{m.name.split("bespokeasm.")[-1]}.{name}'] = (pat, v.flags if isinstance(v, Regex) else 0, f'{m.relpath}:1')
+            # a module constant is known by its name (it stays the same constant when it moves to another module); the module is
+            # added only when two modules define the name with different texts
+            qual = f'{m.name.split("bespokeasm.")[-1]}.{name}'
+            others = [k for k, vv in seen_roots.items() if k == name or k.endswith('.' + name)]
+            if not others:
+                seen_roots[name] = (pat, v.flags if isinstance(v, Regex) else 0, f'{m.relpath}:1')
+            elif all(seen_roots[k][0] == pat for k in others):
+                pass
+            else:
+                seen_roots[qual] = (pat, v.flags if isinstance(v, Regex) else 0, f'{m.relpath}:1')
     for c in ctx.repo.classes.values():
         for name in c.attrs:
             try:
